@@ -58,6 +58,8 @@ def project_probes(ctx, project):
             ctx.probe("respelled_path_key")
         if f.get("glob_group"):
             ctx.probe("recursive_glob_group")
+        if f.get("wide_group"):
+            ctx.probe("file_of_a_glob_with_6000_chars_of_paths")
         if f.get("extra_entry"):
             ctx.probe("group_file_with_entry_of_its_own")
         if f["lines"] and f["lines"][-1]["end"] == "":
